@@ -4,7 +4,9 @@
   overlaygen.py coop   -> /verif/.cache/overlay/coop/overlay.json
       rewrites the imports "sync", "sync/atomic", "time" of the non-test files of the packages under
       cooperative scheduling to the shim packages (virtual paths under /repo/utils/verifshim), rewrites
-      `go` statements to coop.Go, and reduces TRY_LOCK_ATTEMPTS (uniform retry loop) to 2.
+      `go` statements to coop.Go, reduces TRY_LOCK_ATTEMPTS (uniform retry loop) to 2, replaces the three
+      blocking channel operations of the consumer side by equivalent time-shim calls, rewrites utils/locks.go
+      (LavaMutex) the same way and adds the runtime/map.go patch that lets a harness pin map iteration order.
 Fails loudly when an anchor pattern is missing.
 """
 import json, os, re, sys, glob
@@ -52,8 +54,31 @@ def gen_coop():
     }
     total = 0
     pkgs = ['protocol/lavasession']
-    for pkg in pkgs:
-        files = sorted(f for f in glob.glob(os.path.join(REPO, pkg, '*.go')) if not f.endswith('_test.go'))
+    # single files of other packages: utils.LavaMutex guards the consumer sessions (its TryLock/Unlock must be points)
+    extra_files = ['utils/locks.go']
+    # anchors (exact text after gorewrite -> replacement); every anchor must match exactly once
+    anchors = {
+        'single_provider_session.go': [('TRY_LOCK_ATTEMPTS = 30', 'TRY_LOCK_ATTEMPTS = 2')],
+        # blocking channel operations cannot be scheduling points: equivalent forms on the time shim
+        'consumer_session_manager.go': [
+            # second-chance timer of blockProvider
+            ('<-time.After(retrySecondChanceAfter)', 'time.WaitAfter(retrySecondChanceAfter)'),
+            # probeProviders: the waiter goroutine + select{done, ctx.Done()} with a never-cancelled context
+            # (the only caller under PeriodicProbeProviders=false passes context.Background()) == wait inline
+            ('coop.Go(func() { func() {\n\t\tdefer close(done)\n\t\twg.Wait()\n\t}() })',
+             'func() {\n\t\tdefer close(done)\n\t\twg.Wait()\n\t}()'),
+        ],
+        # reconnect ticker of NewReportedProviders
+        'reported_providers.go': [('for range ticker.C {', 'for time.WaitTick(ticker.C) {')],
+    }
+    for pkg in pkgs + extra_files:
+        if pkg.endswith('.go'):
+            files = [os.path.join(REPO, pkg)]
+            pkg = os.path.dirname(pkg)
+            if not os.path.exists(files[0]):
+                die('missing file ' + files[0])
+        else:
+            files = sorted(f for f in glob.glob(os.path.join(REPO, pkg, '*.go')) if not f.endswith('_test.go'))
         if not files:
             die('no files in ' + pkg)
         for f in files:
@@ -63,10 +88,10 @@ def gen_coop():
                 srcf = os.path.join(OVERRIDE, os.path.relpath(f, REPO))
             n, gon = gorewrite(srcf, dst, mapping, MOD + '/coop')
             new = open(dst).read()
-            if os.path.basename(f) == 'single_provider_session.go':
-                new, k = re.subn(r'TRY_LOCK_ATTEMPTS = 30', 'TRY_LOCK_ATTEMPTS = 2', new)
-                if k != 1:
-                    die('anchor TRY_LOCK_ATTEMPTS = 30 not found in ' + f)
+            for (old, rep) in anchors.get(os.path.basename(f), []):
+                if new.count(old) != 1:
+                    die('anchor %r found %d times in %s' % (old, new.count(old), f))
+                new = new.replace(old, rep)
                 open(dst, 'w').write(new)
                 n += 1
             if n or gon:
@@ -79,6 +104,13 @@ def gen_coop():
     for virt, shim in [('coop/coop.go', 'coop.go.txt'), ('sync/sync.go', 'sync.go.txt'),
                        ('sync/atomic/atomic.go', 'atomic.go.txt'), ('time/time.go', 'time.go.txt')]:
         replace[os.path.join(REPO, 'utils/verifshim', virt)] = os.path.join(SHIM, shim)
+    # control of Go's map iteration order (the runtime/map.go patch of overlaygen_runtime.py; inert unless a harness
+    # calls mapiter.Start): schedules must be replayable, so harnesses that iterate multi-entry maps pin the order
+    env = dict(os.environ, VERIF_OVERLAY_OUT=os.path.join(out, 'rt'))
+    r = subprocess.run([sys.executable, '/verif/tools/overlaygen_runtime.py'], env=env, capture_output=True, text=True)
+    if r.returncode != 0:
+        die('overlaygen_runtime failed: ' + r.stderr)
+    replace.update(json.load(open(os.path.join(out, 'rt', 'mapiter', 'overlay.json')))['Replace'])
     json.dump({'Replace': replace}, open(os.path.join(out, 'overlay.json'), 'w'), indent=1)
     print('coop overlay: %d files, %d imports rewritten' % (len(replace), total))
 
